@@ -734,7 +734,9 @@ class SharesManager(BaseManager):
         # Regular expressions on the remaining items
 
         to_keep = set()
-        excl_phrases = excluded_search_phrases or []
+        # Paths are compared lower-cased, the phrases should be as well: the
+        # server can send them in any case
+        excl_phrases = [phrase.lower() for phrase in excluded_search_phrases or []]
         for found_item in found_items:
 
             if not all(matcher(found_item.get_query_path()) for matcher in search_query.matchers_iter()):
